@@ -50,6 +50,10 @@ def program_asts(max_random=None, small=None, rnd_items=None, rnd_nesting=None):
         add(ast)
     for ast in gen.enum_flag_family():
         add(ast)
+    for ast in gen.enum_exhaustive_family():
+        add(ast)
+    for ast in gen.enum_invariant_nesting_family():
+        add(ast)
     # seeded random derivations
     if max_random is None:
         max_random = 2000 if t == "quick" else 10000
